@@ -15,7 +15,7 @@ from vmon.libutil import lib_warnings, load_definition, monitored
 
 LEVEL = "exploration"
 SHARDS = {"quick": 16, "thorough": 16}
-MUST = ["histories", "outputs.joined", "outputs.single", "model.orphans", "model.gaps", "model.superseded", "wraparound.groups", "with_prefix_bytes", "mixed_header_bits"]
+MUST = ["histories", "outputs.joined", "outputs.single", "model.orphans", "model.gaps", "model.superseded", "wraparound.groups", "with_prefix_bytes", "mixed_header_bits", "option.parse_bad_pkts_false", "outputs.withheld_as_bad"]
 RULE = ("history = sequence of (flag, apid, in-sequence|gap) symbols turned into real CCSDS packets with unique ids and "
         "fed to packet_generator(combine_segmented_packets=True, secondary_header_bytes=s) as one byte stream; the "
         "recorded outputs (raw bytes of each yielded packet, warnings per step) are compared with a per-APID state "
@@ -118,17 +118,31 @@ def shape(history):
     return "".join(f"{f}{a}{g_(g)}" for f, a, g in history)
 
 
-def run_history(ctx, defn, history, sh, start, apids, sample=False, k=None, hdr_mode=0):
+def run_history(ctx, defn, history, sh, start, apids, sample=False, k=None, hdr_mode=0, pbp=True):
     pkts = make_packets(history, start, apids, hdr_mode)
     if hdr_mode:
         ctx.count("mixed_header_bits")
     steps, trailing = model(pkts, sh, ctx)
+    if not pbp:
+        # parse_bad_pkts=False on top of segment combining: an output whose parse does not consume it exactly (here: a joined packet
+        # that gained bytes beyond the first segment's length field) is withheld; its warnings surface with the next yielded output
+        ctx.count("option.parse_bad_pkts_false")
+        kept, carry = [], 0
+        for data, contrib, w in steps:
+            first_len = 7 + int.from_bytes(data[4:6], "big")
+            if len(data) != first_len:
+                carry += w
+                ctx.count("outputs.withheld_as_bad")
+            else:
+                kept.append((data, contrib, w + carry))
+                carry = 0
+        steps, trailing = kept, trailing + carry
     if k is None:
         k = (0, 0, 0, 4, 2)[(len(history) * 7 + sh + start) % 5]     # foreign prefix bytes before every raw packet
     if k:
         ctx.count("with_prefix_bytes")
     stream = b"".join(bytes([0xEE]) * k + p["raw"] for p in pkts)
-    gen = defn.packet_generator(stream, combine_segmented_packets=True, secondary_header_bytes=sh, skip_header_bytes=k)
+    gen = defn.packet_generator(stream, combine_segmented_packets=True, secondary_header_bytes=sh, skip_header_bytes=k, **({} if pbp else {"parse_bad_pkts": False}))
     got = []
     end = None
     states = set()
@@ -153,7 +167,7 @@ def run_history(ctx, defn, history, sh, start, apids, sample=False, k=None, hdr_
     seg = any(f != "U" for f, _, _ in history)
     if seg:
         ctx.sig(shape(history) if len(history) <= 5 else shape(history[:5]) + f"+{len(history) - 5}", sh)
-    wit = {"history": shape(history), "header_bits_mode": hdr_mode, "secondary_header_bytes": sh, "start_counter": start, "skip_header_bytes": k,
+    wit = {"history": shape(history), "header_bits_mode": hdr_mode, "parse_bad_pkts": pbp, "secondary_header_bytes": sh, "start_counter": start, "skip_header_bytes": k,
            "seqs": [p["seq"] for p in pkts], "model_outputs": [c for _, c, _ in steps],
            "got_outputs": [ids_in(b, pkts) for b, _ in got]}
     if sample:
@@ -253,4 +267,9 @@ def run(ctx):
             f = rng.choices("FCLU", weights=(3, 4, 3, 2))[0]
             hist.append((f, rng.randrange(3), rng.choice([False] * 8 + [True, 0, -1, 3])))
         run_history(ctx, defn, hist, rng.choice(shs + [2, 8]), rng.choice(starts + [rng.randrange(16384)]), apids3,
-                    sample=(i == 0), hdr_mode=rng.choice((0, 0, 1, 2, 3, 4)))
+                    sample=(i == 0), hdr_mode=rng.choice((0, 0, 1, 2, 3, 4)), pbp=rng.random() < 0.7)
+    # every history of length <= 3 with the bad-packet filter on
+    for L in range(1, 4):
+        for hi, history in enumerate(itertools.product(alphabet, repeat=L)):
+            if ctx.mine(hi):
+                run_history(ctx, defn, list(history), shs[hi % 4], 16383, apids2, pbp=False)
